@@ -294,17 +294,18 @@ CHECKS = {
 ADDED = {
     "C01": " Added: Tseitin CNFs of n x n array multipliers (n = 10..13, product = square of a prime: one model, hundreds to thousands of conflicts per call under default tuning) and guarded pigeonhole formulas, judged against models known by construction.",
     "C02": " Added: the same multiplier / guarded-pigeonhole instances; every learned clause of those runs must hold in every known model (for the one-model multipliers this is entailment), INFEASIBLE on them is a violation.",
-    "C03": " Added: the interior-point solver on all 2x2 LPs with entries 3/-3 (parallel contradictory rows scaled by 3: the fastest-diverging infeasible / unbounded inputs).",
-    "C04": " Added: four integer variables in 0..2 with a covering row (minimise) or a knapsack row (maximise) - trees of about ten LP nodes, incumbents found while dominated and non-dominated nodes wait, integral LP bounds with float residue; two variables whose single-variable rows are x_j <= 1 or -x_j <= -1. Wave 9: two integer variables in the box 0..3 with every integer point as warm start (entries 2 and 3 meeting the rounding / swap local search).",
-    "C05": " Added: two global constraints of one kind in the same model (two cumulative resources of different capacity, two sums, two no_overlap groups); models with 1100-1500 decision variables (deeper than the interpreter's recursion limit). Wave 9: all_different over 4-5 variables with 3-4 values each and the full hint menu (hints that survive propagation but extend to no solution).",
+    "C03": " Added: the interior-point solver on all 2x2 LPs with entries 3/-3 (parallel contradictory rows scaled by 3: the fastest-diverging infeasible / unbounded inputs). Wave 10: eps configurations for both LP solvers.",
+    "C04": " Added: four integer variables in 0..2 with a covering row (minimise) or a knapsack row (maximise) - trees of about ten LP nodes, incumbents found while dominated and non-dominated nodes wait, integral LP bounds with float residue; two variables whose single-variable rows are x_j <= 1 or -x_j <= -1. Wave 9: two integer variables in the box 0..3 with every integer point as warm start (entries 2 and 3 meeting the rounding / swap local search). Wave 11: 0/1 knapsack and covering problems with 10-24 binaries and a DP optimum, heuristics on/off, objective negated with the sense flipped, LNS passes.",
+    "C05": " Added: two global constraints of one kind in the same model (two cumulative resources of different capacity, two sums, two no_overlap groups); models with 1100-1500 decision variables (deeper than the interpreter's recursion limit). Wave 9: all_different over 4-5 variables with 3-4 values each and the full hint menu (hints that survive propagation but extend to no solution). Wave 11: models with 8-24 variables satisfiable (or infeasible) by construction - hidden permutations, queens, long sums, circuits, unary and cumulative machines - under auto, dfs and sat.",
     "C06": " Added: two cumulative constraints over the same tasks with different capacities and other pairs of global constraints in one model.",
     "C07": " Added: matrices whose unique cover has 1200-1500 rows (search depth beyond the interpreter's recursion limit). Wave 9: integer column names that are a non-identity permutation of the positions.",
-    "C09": " Added: cost alphabets with one arc priced 10^10 next to costs -2 and 5 (tolerances that scale with the cost sum). Wave 9: costs of 2^53+1 with exact (rational) comparison of the reported cost.",
-    "C10": " Added: cost alphabets far from zero with a small spread ({6..9}, {20,21,30}, {100,140}).",
+    "C08": " Added: 36 rerouting-chain networks (an arc filled, emptied and needed again) with the maximum flow in closed form.",
+    "C09": " Added: cost alphabets with one arc priced 10^10 next to costs -2 and 5 (tolerances that scale with the cost sum). Wave 9: costs of 2^53+1 with exact (rational) comparison of the reported cost. Wave 11: node-disjoint path networks (15-60 nodes), dense 8-12 node networks whose only cheap shortcut is listed last and bare chains with a dear direct arc, minimum cost in closed form for every demand, three arc-list orders, both solvers.",
+    "C10": " Added: cost alphabets far from zero with a small spread ({6..9}, {20,21,30}, {100,140}). Wave 10: ramps max(0, j-i) up to 30x30 and product matrices (i+1)(j+1) with more columns than rows (optimum by the rearrangement inequality).",
     "C11": " Added: all 2^22 obstacle layouts of 4x6 and 6x4 grids with corner-to-corner queries (thorough; a rotating 1/8 block in quick) - the smallest grids on which two 8-neighbour routes differ by 3*sqrt(2)-4; dense convex graphs on 30-40 nodes (labels improved dozens of times); neighbour functions returning one-shot iterables.",
     "C12": " Added: eight functions on paths / cycles of 120 000 nodes with every back-end in its own interpreter (a native stack overflow kills only the child and is reported); weights a rounding error away from zero-weight cycles; a call that returns under neither back-end is a violation. Wave 9: a chain whose edges name the new node first, closed by a heavier edge (kruskal asks for the far end last).",
     "C13": " Added: complete graphs on 36 and 60 nodes and a 3-node multigraph with 270 parallel edges (Prim queues of several hundred entries), four Prim start nodes each. Wave 9: K64, Prim from every eighth node on dense graphs, a 1500-node chain whose edges name the new node first.",
-    "C14": " Added: node collections and neighbour answers given as one-shot iterables (generators); a path of 5000 nodes, a cycle of 3000 and a chain of 600 triangles with classes known in closed form.",
+    "C14": " Added: node collections and neighbour answers given as one-shot iterables (generators); a path of 5000 nodes, a cycle of 3000 and a chain of 600 triangles with classes known in closed form. Wave 10: lollipops (a path of L nodes into a cycle, L around 16 / 32 / 64) and fans (w sources released at once, one duplicate edge).",
     "C15": " Added: unordered labels including None (articulation_points, k-cores), one-shot iterables, a path of 3000 nodes / 130 bow-ties / a 1500-cycle with a tail of 1000 in closed form, pagerank tolerances 1e-2 .. 1e-15 with the residual computed exactly.",
     "C17": " Added: roll widths 1500-2000 with two piece sizes around a third of the width (pricing tables wider than 1000 units); one order solved for every roll width up to 12 and back in one process; the pieces of two rolls of width 16 cut into 3-4 pieces each with unit demands (optimum 2 by construction, degenerate masters).",
     "C18": " Added: route_removal with n_routes=2 as a tenth operator of the BFS; solve_job_shop under on_progress stops.",
